@@ -126,7 +126,7 @@ def _check(impl, scn, stats=None):
     def must_abort(h, m):
         """the operation of handler h cannot have completed at the current line (an intervention `m` on its object)"""
         st = started[h]; kind = st["kind"]; obj = st["obj"]; op = st["op"]
-        if thrown or foreign: return None
+        if thrown or foreign or injected: return None      # traffic no C line shows, or a run() left by an exception
         if kind == "wait" and obj[0] == "t":
             e = st.get("expiry")
             if e is not None and hi[idx] < e:
@@ -141,12 +141,12 @@ def _check(impl, scn, stats=None):
                 if not any(c is None or p is None or c == p for c in connects):
                     return "no connect to port %s had been called" % p
         elif kind == "recv" and obj[0] == "u":
-            if st.get("cand") and uopen.get(obj) and obj in uport and not injected:
+            if st.get("cand") and uopen.get(obj) and obj in uport:
                 p = uport[obj]
                 if not any(c is None or p is None or c == p for c in sendtos):
                     return "no datagram had been sent to port %s" % p
         elif kind == "recv" and obj[0] == "s" and op in ("read", "wait_read"):
-            if est.get(obj) and st.get("epoch") == epoch.get(obj, 0) and noise_by_others(obj) == 0 and not injected:
+            if est.get(obj) and st.get("epoch") == epoch.get(obj, 0) and noise_by_others(obj) == 0:
                 return "the connection was established and no other TCP socket had written or closed"
         return None
 
